@@ -5,7 +5,7 @@ MODEL_SHOW = "model_obs"
 DISAGREE_IS_VIOLATION = True   # observables are exactly what the property fixes
 HARNESS_TIMEOUT = 900
 RULE = ("fixed: every (service type gate/chat/room/unknown) x (method behaviour echo, fail, panic, never completes, "
-        "notify-shaped, unknown method, unknown group, undecodable payload) combination once as request and once as notification, "
+        "notify-shaped, unknown method, unknown group, undecodable payload, successful result the serializer cannot encode (+Inf float)) combination once as request and once as notification, "
         "for an unbound routing key and for keys naming chat-1, chat-2, an instance of the wrong type, a missing instance; the six "
         "malformed routes; connect-while-the-front-is-busy followed at once by forwarded requests (F12); the same request id in flight "
         "twice to different instances; close with requests pending at a back-end; id 2^32-1. random: 1-3 connections, 2-60 pipelined "
@@ -14,7 +14,7 @@ RULE = ("fixed: every (service type gate/chat/room/unknown) x (method behaviour 
         "advance and a sentinel round trip on every open connection. Non-trivial = at least one response was received; distinct = distinct op lists.")
 TRUSTED_BASE = [
     "Coq 8.16.1 kernel + vm_compute (case evaluation, Examples); no native_compute",
-    "hand translation handler.go Process/tryCallCol/ProcessForwardMsg, forwarder.go Forward + relay callback, sessionsimpl.go ProcessMessage, builtin/system.go Call/Notify, session.go ResponseMID, actorex/service checkExpired -> C02/Model.v (REPAIRED code: hooks/C02-fix-*.patch), measured by this correspondence run",
+    "hand translation handler.go Process/tryCallCol/ProcessForwardMsg, forwarder.go Forward + relay callback, sessionsimpl.go ProcessMessage, builtin/system.go Call/Notify, session.go ResponseMID, actorex/service checkExpired -> C02/Model.v (REPAIRED code: hooks/C02-fix-*.patch, incl. C02-fix-forwarded-marshal-error), measured by this correspondence run",
     "abstractions (modelled, not verified here): the front's pending-request table = one callback slot per forwarded request (id uniqueness is C01's theorem); protoactor local send = the message is in the target's mailbox (one hop per EDeliver); apimapper CallWithSerialize/CallMethod/SafeCall as the behaviour enum of Model.v (C13); route functions and the instance table as arbitrary functions rf/itype (C07); JSON payloads and error strings opaque (a response is (id, error flag, payload class))",
     "Go harness harness/e2e (in-process node, raw pomelo client on pomelonet codec packages, quiescence = sentinel round trips + mailbox/scheduler barriers until a full pass sees no activity) and harness/c02; verif hooks common.VerifSetNowMs and actorex/service VerifCheckExpired (hooks/C01-hook-service-export.patch); bin/check.py term printer",
     "TCP on localhost, Go channels, goroutine scheduling: exercised, not modelled",
@@ -24,6 +24,7 @@ ASSUMPTIONS = [
     "a client frame is processed while its session exists (frames racing with the removal of their own session are C05's subject: Process(nil, msg))",
     "handlers complete at most once (completion twice = C13 / F11) and complete synchronously or never in the harness; a front-local handler that keeps its completion forever is not answered (user code; excluded by `expected <> None`)",
     "theorem C02_relayed_unchanged needs `calm`: the clock crosses a forward deadline only when no reply is in flight; otherwise the one response may be the time-out error (C02_one_response / C02_source cover that case)",
+    "only the JSON client serializer is exercised (the proto serializer is a process-wide setting that would change the argument decoding of every harness method)",
     "time-outs are crossed with the virtual clock and an explicit expiry scan (VerifCheckExpired); the 1 s real timer that normally triggers the scan is not waited for",
 ]
 TECHNIQUE = "Coq proof (one inductive invariant over all interleavings of client operations and message deliveries, refinement to history functions `ledger`/`expected`) + differential correspondence against a real in-process node driven by a raw TCP client"
